@@ -62,6 +62,16 @@ void femm::FemmProblem::writeProblemDescription(std::ostream &output) const
     output << "[MinAngle]" << "  =  " << MinAngle << "\n";
     output.width(12);
     output << "[Depth]" << "  =  " << Depth << "\n";
+    // switches introduced by xfemm: only written when they differ from their defaults
+    if (!DoSmartMesh)
+        output << "[DoSmartMesh] =  0\n";
+    if (DoForceMaxMeshArea)
+        output << "[ForceMaxMesh] =  1\n";
+    if (filetype == FileType::HeatFlowFile)
+    {
+        output.width(12);
+        output << "[dT]" << "  =  " << dT << "\n";
+    }
     output << "[LengthUnits] =  ";
     switch (LengthUnits) {
     case femm::LengthMillimeters:
